@@ -54,6 +54,8 @@ def logical_ops():
     ops["polyline"] = shape(lambda p, d: c10.polyline_case(p, [(2, 0), (2, 3, 1), (0, 0)]))
     # a waypoint exactly at the machine origin (and one repeated waypoint)
     ops["polyline-origin"] = shape(lambda p, d: c10.polyline_case(p, [(1.0, 2.0, 0.5), (-p[0], -p[1], -p[2]), (2.0 - p[0], 1.0 - p[1], -p[2]), (2.0 - p[0], 1.0 - p[1], -p[2])]))
+    # a bypass move the limits refuse (only used in histories with limits configured): the caller catches the error and carries on
+    ops["rejected-bypass"] = lambda p, d: ("rejected_bypass", {}, tuple(p))
     # user-supplied parametric curves in absolute coordinates; the second one does not start at the current position
     ops["parametric"] = lambda p, d: ("parametric", {"origin": list(p), "offset": [0.0, 0.0, 0.0]}, (p[0] + 4.0, p[1], p[2] + 1.0))
     ops["parametric-detached"] = lambda p, d: ("parametric", {"origin": list(p), "offset": [3.0, -1.0, 0.5]}, (p[0] + 7.0, p[1] - 1.0, p[2] + 1.5))
@@ -88,6 +90,12 @@ def apply(run, kind, largs, start):
                     raise KeyError("body failed")
             except KeyError:
                 pass
+        elif kind == "rejected_bypass":
+            for call in (g.move_absolute, g.rapid_absolute):
+                try:
+                    call(x=5000.0, y=start[1])
+                except ValueError:
+                    pass
         elif kind == "ctx_abs_switch":
             t = largs["target"]
             mid = [(t[i] + start[i]) / 2 for i in range(3)]
@@ -173,7 +181,7 @@ def run_history(item):
 
 def run(tier, seed):
     res = Result("model_checking")
-    names = list(OPS)
+    names = [n for n in OPS if n != "rejected-bypass"]
     hists = []
     if tier == "quick":
         for s in STARTS:
@@ -200,6 +208,11 @@ def run(tier, seed):
             first = [n for n in simple if "absolute" not in n]
         for h in itertools.product(first, pool):
             hists.append((STARTS[1], "clockwise", h, opts))
+    # axes limits configured, a refused bypass move in the middle of the path
+    for a in ("move", "rapid", "arc"):
+        for b in simple:
+            hists.append((STARTS[1], "clockwise", (a, "rejected-bypass", b), {"bounds": True}))
+            hists.append((STARTS[1], "counter", ("rejected-bypass", b), {"bounds": True}))
     # from a fresh builder (no axis position known yet): every op first, and behind one plain op
     for h in [(n,) for n in names] + [(a, b) for a in ("rapid", "move-xy") for b in names]:
         hists.append((STARTS[0], "counter", h, {"unknown": True}))
